@@ -250,13 +250,14 @@ def geometry_bounded(seed, n_it):
         g = T.T @ (p - o)
         if ct == 1:
             return T
+        onaxis = abs(g[0]) + abs(g[1]) <= 1e-8          # on the axis the azimuth is undefined: the documented convention is azimuth 0
         if ct == 2:
-            th = np.arctan2(g[1], g[0])
+            th = 0.0 if onaxis else np.arctan2(g[1], g[0])
             E = np.array([[np.cos(th), -np.sin(th), 0], [np.sin(th), np.cos(th), 0], [0, 0, 1]])
             return T @ E
         R = np.linalg.norm(g)
-        th = np.arccos(g[2] / R)
-        ph = np.arctan2(g[1], g[0])
+        th = 0.0 if R <= 1e-8 else np.arccos(np.clip(g[2] / R, -1.0, 1.0))
+        ph = 0.0 if onaxis else np.arctan2(g[1], g[0])
         er = np.array([np.sin(th) * np.cos(ph), np.sin(th) * np.sin(ph), np.cos(th)])
         et = np.array([np.cos(th) * np.cos(ph), np.cos(th) * np.sin(ph), -np.sin(th)])
         ep = np.array([-np.sin(ph), np.cos(ph), 0])
@@ -295,13 +296,15 @@ def geometry_bounded(seed, n_it):
         gid = 100
         for cid in (0, 10, 20, 30):
             ct, T, o = systems[cid]
-            for k in range(3):
+            for k in range(3 if ct == 1 else 4):
                 if ct == 1:
                     a = rng.randn(3) * 3
                 elif ct == 2:
-                    a = np.array([rng.uniform(0.5, 3), [180.0, special[rng.randint(len(special))], rng.uniform(-180, 180)][k], rng.randn()])
+                    a = np.array([rng.uniform(0.5, 3), [180.0, special[rng.randint(len(special))], rng.uniform(-180, 180)][k], rng.randn()]) if k < 3 else \
+                        np.array([0.0, 0.0, rng.randn()])                                             # on the axis of the cylindrical system
                 else:
-                    a = np.array([rng.uniform(0.5, 3), [90.0, 45.0, rng.uniform(10, 170)][k], [180.0, special[rng.randint(len(special))], rng.uniform(-180, 180)][k]])
+                    a = np.array([rng.uniform(0.5, 3), [90.0, 45.0, rng.uniform(10, 170)][k], [180.0, special[rng.randint(len(special))], rng.uniform(-180, 180)][k]]) if k < 3 else \
+                        np.array([rng.uniform(0.5, 3), [180.0, 0.0][(it // 2) % 2], 0.0])                # on the negative / positive polar axis of the spherical system
                 gid += 1
                 cin = 0 if cid == 0 else cords[cid]
                 # make sure parents are known
